@@ -14,4 +14,5 @@ func moreFacts() {
 	c10Facts()
 	c06Facts()
 	purgeFacts()
+	c07Facts()
 }
